@@ -227,24 +227,19 @@ Definition run_1404 (input impl : sx) : sx :=
 (* ---- kind 1405: the real Copy under strace: the flavours of its metadata calls ----
    impl = (output-of-1404 ((call nofollow path) ...)).  A call of the wrong flavour is a specification failure; otherwise the verdict
    is that of kind 1404 on the same run.  chown / utimes / setxattr calls must be no-follow, a following chmod must name
-   something that is not a symlink in the after-snapshot (theorem metadata_calls_nofollow). *)
+   something that is not a symlink at the time of the call (theorem metadata_calls_nofollow). *)
 Definition s_chmod : bytes := [99; 104; 109; 111; 100].
-Fixpoint snap_is_link (snap : list sx) (p : bytes) : bool :=
-  match snap with
-  | [] => false
-  | SL [SB q; _; SL (SN mode :: _)] :: r =>
-    if bytes_eqb q p then N.eqb (N.land mode 61440) 40960 else snap_is_link r p
-  | _ :: r => snap_is_link r p
-  end.
-Definition ev_ok (after : list sx) (e : sx) : bool :=
+(* (call nofollow path) for chown / utimes / setxattr; (chmod nofollow path onlink) *)
+Definition ev_ok (e : sx) : bool :=
   match e with
   | SL [SB kind; b; SB path] =>
-    match sx_bool b with
-    | Some true => true
-    | Some false =>
-      bytes_eqb kind s_chmod &&
-      negb (snap_is_link after (match path with a :: r => if N.eqb a sep then r else path | [] => [] end))
-    | None => false
+    negb (bytes_eqb kind s_chmod) && match sx_bool b with Some true => true | _ => false end
+  | SL [SB kind; b; SB path; l] =>
+    bytes_eqb kind s_chmod &&
+    match sx_bool b, sx_bool l with
+    | Some true, Some _ => true
+    | Some false, Some false => true
+    | _, _ => false
     end
   | _ => false
   end.
@@ -252,7 +247,7 @@ Definition run_1405 (input impl : sx) : sx :=
   match impl with
   | SL [SL [r0; sb; ms; err; SL sa; di; pt]; SL evs] =>
     let o4 := SL [r0; sb; ms; err; SL sa; di; pt] in
-    if forallb (ev_ok sa) evs then run_1404 input o4
-    else verdict impl impl false (SL (filter (fun e => negb (ev_ok sa e)) evs))
+    if forallb ev_ok evs then run_1404 input o4
+    else verdict impl impl false (SL (filter (fun e => negb (ev_ok e)) evs))
   | _ => v_malformed
   end.
